@@ -102,6 +102,17 @@ class JSONData(ABC):
         """
         return self._data
 
+    def __eq__(self, other):
+        """
+        Two blobs are equal if they are of the same kind and decode to equal data
+        """
+        if not isinstance(other, self.__class__):
+            return NotImplemented
+        return self.data == other.data
+
+    def __hash__(self):
+        return hash(self.__class__)
+
     def __str__(self):
         return str(self._data)
 
